@@ -95,6 +95,46 @@ fn point_index(p: &Point) -> Option<u8> {
     }
 }
 
+/// All schedules with at most `max_req` requests and `max_notes` notifications on note 0; see
+/// `fixed_cases`. A schedule ends with its last message (everything is released afterwards anyway).
+pub fn enumerate_schedules(max_req: u8, max_notes: u8) -> Vec<SchedCase> {
+    fn rec(events: &mut Vec<Ev>, reqs_left: u8, notes_left: u8, sent_notes: u8, points: &mut Vec<u8>, out: &mut Vec<SchedCase>) {
+        if !events.is_empty() && matches!(events.last(), Some(Ev::Req(_)) | Some(Ev::Change(_, _))) {
+            out.push(SchedCase { events: events.clone() });
+        }
+        if reqs_left > 0 {
+            events.push(Ev::Req(0));
+            points.push(0);
+            rec(events, reqs_left - 1, notes_left, sent_notes, points, out);
+            points.pop();
+            events.pop();
+        }
+        if notes_left > 0 {
+            events.push(Ev::Change(0, sent_notes + 1));
+            rec(events, reqs_left, notes_left - 1, sent_notes + 1, points, out);
+            events.pop();
+        }
+        // an advance is only worth enumerating when a message can still follow it
+        if reqs_left > 0 || notes_left > 0 {
+            // outstanding workers in start order (those that have not exited)
+            let outstanding: Vec<usize> = (0..points.len()).filter(|i| points[*i] < 3).collect();
+            for (pos, w) in outstanding.iter().enumerate() {
+                for to in (points[*w] + 1)..=3 {
+                    let before = points[*w];
+                    events.push(Ev::Advance(pos as u8, to));
+                    points[*w] = to;
+                    rec(events, reqs_left, notes_left, sent_notes, points, out);
+                    points[*w] = before;
+                    events.pop();
+                }
+            }
+        }
+    }
+    let mut out = vec![];
+    rec(&mut vec![], max_req, max_notes, 0, &mut vec![], &mut out);
+    out
+}
+
 impl Property for C11 {
     type Case = SchedCase;
     fn id(&self) -> &'static str {
@@ -104,7 +144,7 @@ impl Property for C11 {
         "exploration"
     }
     fn rule(&self) -> String {
-        "schedules: a generated list of 1-10 events over two notes - formatting requests, other requests, didChange / didSave with numbered text versions, and Advance(worker, point) steps that let one outstanding request worker run to 'result computed', 'response sent' or 'exited'; request workers park at the pause points of the verif feature until the schedule releases them, so every interleaving of the message loop with the workers at the granularity of those four points is a generated value and replays exactly; at the end everything is released and the server reaches idle; oracle: no notification handler panicked or was skipped (message-handled signal), after quiescence formatting of every note equals a fresh server's formatting of the last text sent for it, and every formatting request issued after a notification is answered from a state that includes it; non-trivial = at least one notification delivered while at least one worker is between started and exited".into()
+        "(besides the generated schedules, every schedule over one note with at most one - thorough tier: two - formatting requests and at most two didChange notifications, in every order and with every monotone way of advancing each outstanding worker between the messages, is enumerated and run: 41 resp. 3466 schedules) schedules: a generated list of 1-10 events over two notes - formatting requests, other requests, didChange / didSave with numbered text versions, and Advance(worker, point) steps that let one outstanding request worker run to 'result computed', 'response sent' or 'exited'; request workers park at the pause points of the verif feature until the schedule releases them, so every interleaving of the message loop with the workers at the granularity of those four points is a generated value and replays exactly; at the end everything is released and the server reaches idle; oracle: no notification handler panicked or was skipped (message-handled signal), after quiescence formatting of every note equals a fresh server's formatting of the last text sent for it, and every formatting request issued after a notification is answered from a state that includes it; non-trivial = at least one notification delivered while at least one worker is between started and exited".into()
     }
     fn assumptions(&self) -> Vec<String> {
         vec!["interleavings are explored at the granularity of the four pause points; races inside handlers are out of reach (there is no shared mutable state there besides the Arc)".into(), "a 20 s backstop on quiescence ends in inconclusive (exit 2), not in a violation".into()]
@@ -120,6 +160,18 @@ impl Property for C11 {
             Tier::Quick => 800,
             Tier::Thorough => 40_000,
         }
+    }
+    /// Exhaustive sub-space, run by the supervisor in every tier: every schedule over one note with
+    /// at most R formatting requests and at most two didChange notifications (texts 1 and 2), in
+    /// every order, with every way of letting each outstanding worker advance (to 'result
+    /// computed', 'response sent', 'exited', monotonically) between the messages. R = 1 in the
+    /// quick tier, 2 in the thorough tier.
+    fn fixed_cases(&self, tier: Tier) -> Vec<SchedCase> {
+        let max_req = match tier {
+            Tier::Quick => 1,
+            Tier::Thorough => 2,
+        };
+        enumerate_schedules(max_req, 2)
     }
     fn strategy(&self, _features: &Features, _tier: Tier) -> BoxedStrategy<SchedCase> {
         let ev = prop_oneof![
@@ -387,5 +439,14 @@ impl Property for C11 {
     }
     fn sample(&self, case: &SchedCase) -> Value {
         json!({"events": format!("{:?}", case.events)})
+    }
+}
+
+#[cfg(test)]
+mod tests {
+    #[test]
+    fn schedule_counts() {
+        println!("R1: {}", super::enumerate_schedules(1, 2).len());
+        println!("R2: {}", super::enumerate_schedules(2, 2).len());
     }
 }
